@@ -322,31 +322,47 @@ def install(M, knobs, report):
     except Exception:  # noqa
         bump("c19_monitor_errors")
 
+    # C19, persisted: the call paths a fresh CallPathLoader reads back from the workspace are the store's content.  Done after
+    # EVERY analysis of this interpreter (a second analysis may reuse the workspace of the first).
+    def c19_readback():
+        try:
+            pm = state.get("p3_pm")
+            if pm is not None and state["loaders"] and not fault:
+                state["c19_readback_done_for"] = pm
+                sub = state["loaders"][-1]._global_call_path_loader
+                fresh_cp = type(sub)(sub.path)
+                buf = io.StringIO()
+                with contextlib.redirect_stdout(buf), contextlib.redirect_stderr(buf):
+                    try:
+                        fresh_cp.restore()                 # what Loader.restore() does, which tolerates a missing file
+                    except FileNotFoundError:
+                        pass
+                view = {as_tuple(p_) for p_ in fresh_cp.all_paths}
+                m = models.get(id(pm)) or PathModel()
+                bump("c19_readbacks_checked")
+                if view != m.S and len(report["c19"]) < 20:
+                    report["c19"].append({"cls": "persisted_readback_mismatch", "after": ["export", "fresh CallPathLoader.restore", report["stats"].get("c19_analyses_started", 0)],
+                                          "expected": sorted(m.S)[:8], "observed": sorted(view)[:8]})
+        except Exception as e:  # noqa
+            bump("c19_monitor_errors")
+            report["notes"].append(f"c19 readback failed: {e!r}"[:300])
+
+    orig_lian_run = M.Lian.run
+
+    def lian_run(self, *a, **kw):
+        res = orig_lian_run(self, *a, **kw)
+        c19_readback()               # only reached when the analysis returned normally
+        return res
+    M.Lian.run = lian_run
+
     # ------------------------------------------------------------------ finaliser: restore from files with a fresh Loader
     def finalise():
         state["wrap"] = False
         EM.EventManager.notify = orig_notify
         # the restore comparison needs the final Loader.export() of a completed run
         report["stats"]["pipeline_loader_seen"] = int(bool(state["loaders"]))
-        # C19, persisted: the call paths a fresh CallPathLoader reads back from the workspace are the store's content
-        try:
-            pm = state.get("p3_pm")
-            if pm is not None and state["loaders"] and not fault and os.environ.get("LIAN_SIM_RUN_STATUS", "ok") == "ok":
-                sub = state["loaders"][-1]._global_call_path_loader
-                fresh_cp = type(sub)(sub.path)
-                if os.path.exists(sub.path):
-                    buf = io.StringIO()
-                    with contextlib.redirect_stdout(buf), contextlib.redirect_stderr(buf):
-                        fresh_cp.restore()
-                view = {as_tuple(p_) for p_ in fresh_cp.all_paths}
-                m = models.get(id(pm)) or PathModel()
-                bump("c19_readbacks_checked")
-                if view != m.S and len(report["c19"]) < 20:
-                    report["c19"].append({"cls": "persisted_readback_mismatch", "after": ["export", "fresh CallPathLoader.restore"],
-                                          "expected": sorted(m.S)[:8], "observed": sorted(view)[:8]})
-        except Exception as e:  # noqa
-            bump("c19_monitor_errors")
-            report["notes"].append(f"c19 readback failed: {e!r}"[:300])
+        if state.get("p3_pm") is not None and state.get("c19_readback_done_for") is not state.get("p3_pm"):
+            c19_readback()
         if not state["loaders"] or not knobs.get("check_restore", True) or os.environ.get("LIAN_SIM_RUN_STATUS", "ok") != "ok":
             report["stats"]["restore_skipped"] = 1
             return report
@@ -619,10 +635,21 @@ def run_ops(ops, timeout=240):
             hist_status = o0.get("status")
         argv2 = None
         if run.get("second_analysis"):
-            # the same project once more, in the same interpreter, into another workspace
             knobs["check_restore"] = False
+            if run.get("second_analysis") == "same_ws_cut":
+                # the project after an edit removed its calls, analysed in the same interpreter into the SAME workspace (-f)
+                proj2 = os.path.join(B, "stage2", "proj")
+                for op in files:
+                    fp = os.path.join(proj2, op["path"])
+                    os.makedirs(os.path.dirname(fp), exist_ok=True)
+                    with open(fp, "w", encoding="utf-8") as f:
+                        f.write("x = 1\n" if op["path"].endswith(".py") else "")
+                ws2, in2 = os.path.join(B, "ws"), proj2
+            else:
+                # the same project once more, in the same interpreter, into another workspace
+                ws2, in2 = os.path.join(B, "ws2"), proj
             argv2 = lianrun.build_argv({"sub": run.get("sub", "run"), "lang": run.get("lang", "python"), "force": True,
-                                        "workspace": os.path.join(B, "ws2"), "inputs": [proj], "flags": list(run.get("flags", [])) + extra_flags},
+                                        "workspace": ws2, "inputs": [in2], "flags": list(run.get("flags", [])) + extra_flags},
                                        ctx["settings"])
         out = lianrun.run_forked(ctx["M"], argv, B, os.path.join(B, "report.json"), os.path.join(B, "stdio.txt"),
                                  before_run=before_run, timeout=timeout, second_argv=argv2,
